@@ -197,11 +197,16 @@ def check_c13(ctx):
     ctx.tlc_must_pass(SPEC, "Conf", "MC_Conf.cfg", defines=mcd, timeout=2400)
     cases = []
     allk = '{"sdc", "gslb", "ctable", "file"}'
+    sdck = '{"sdc"}'
     if q:
-        gens = [({"KINDS": allk, "DEV": 1}, None), ({"KINDS": '{"gslb", "ctable", "file"}', "DEV": 2}, None),
-                ({"KINDS": '{"sdc"}', "DEV": 2}, 400), ({"KINDS": '{"sdc"}', "DEV": 3}, 150)]
+        gens = [({"KINDS": allk, "DEV": 1, "INITPOS": "FALSE"}, None),
+                ({"KINDS": '{"gslb", "ctable", "file"}', "DEV": 2, "INITPOS": "FALSE"}, None),
+                # every position of the subject element x every other single deviation, exhaustively
+                ({"KINDS": sdck, "DEV": 2, "INITPOS": "TRUE"}, None),
+                ({"KINDS": sdck, "DEV": 2, "INITPOS": "FALSE"}, 300), ({"KINDS": sdck, "DEV": 3, "INITPOS": "FALSE"}, 120)]
     else:
-        gens = [({"KINDS": allk, "DEV": 2}, None), ({"KINDS": allk, "DEV": 3}, 2500)]
+        gens = [({"KINDS": allk, "DEV": 2, "INITPOS": "FALSE"}, None), ({"KINDS": allk, "DEV": 3, "INITPOS": "TRUE"}, 1500),
+                ({"KINDS": allk, "DEV": 3, "INITPOS": "FALSE"}, 1500)]
     ctx.cov["constants"]["Gen_Conf"] = []
     for d, num in gens:
         ctx.cov["constants"]["Gen_Conf"].append(dict(d, mode="simulate num=%d" % num if num else "mc"))
